@@ -18,6 +18,86 @@ class FrontError(Exception):
     """The requested function/class does not exist (any more) in the working tree."""
 
 
+def local_bindings(fn_node):
+    order, first = [], {}
+    own = set()
+
+    def note(name, kind, rhs):
+        own.add(name)
+        if name not in first:
+            first[name] = (kind, rhs)
+            order.append(name)
+    for a in fn_node.args.posonlyargs + fn_node.args.args + fn_node.args.kwonlyargs:
+        note(a.arg, "param", None)
+
+    def targets(t):
+        for e in ast.walk(t):
+            if isinstance(e, ast.Name):
+                yield e.id
+
+    def visit(body):
+        for n in body:
+            if isinstance(n, (ast.FunctionDef, ast.AsyncFunctionDef, ast.ClassDef)):
+                note(n.name, "def", None)
+                continue
+            if isinstance(n, ast.Assign):
+                for t in n.targets:
+                    for nm in targets(t):
+                        note(nm, "assign", n.value)
+            elif isinstance(n, ast.AnnAssign):
+                for nm in targets(n.target):
+                    note(nm, "assign", n.value)
+            elif isinstance(n, ast.AugAssign):
+                for nm in targets(n.target):
+                    note(nm, "aug", n.value)
+            elif isinstance(n, (ast.For, ast.AsyncFor)):
+                for nm in targets(n.target):
+                    note(nm, "for", n.iter)
+            elif isinstance(n, (ast.With, ast.AsyncWith)):
+                for it in n.items:
+                    if it.optional_vars is not None:
+                        for nm in targets(it.optional_vars):
+                            note(nm, "with", it.context_expr)
+            elif isinstance(n, (ast.Import, ast.ImportFrom)):
+                for al in n.names:
+                    note((al.asname or al.name).split(".")[0], "import", None)
+            for fld in ("body", "orelse", "finalbody"):
+                sub = getattr(n, fld, None)
+                if isinstance(sub, list):
+                    visit(sub)
+            for h in getattr(n, "handlers", []) or []:
+                if h.name:
+                    note(h.name, "except", None)
+                visit(h.body)
+    visit(fn_node.body)
+
+    class Blank(ast.NodeTransformer):
+        def visit_Name(self, n):
+            return ast.Name(id="_", ctx=n.ctx) if n.id in own else n
+    import copy
+    out = []
+    for nm in order:
+        kind, rhs = first[nm]
+        sk = ast.unparse(Blank().visit(copy.deepcopy(rhs))).replace(" ", "")[:120] if rhs is not None else ""
+        out.append((nm, f"{kind}:{sk}"))
+    return out
+
+
+def align_locals(ref, cur):
+    """Map reference local names to current ones: identical names first, then renamed ones matched by an order-preserving
+    alignment of their binding signatures."""
+    import difflib
+    cur_names = [n for n, _ in cur]
+    alias = {}
+    sm = difflib.SequenceMatcher(a=[s for _, s in ref], b=[s for _, s in cur], autojunk=False)
+    for blk in sm.get_matching_blocks():
+        for i in range(blk.size):
+            rn, cn = ref[blk.a + i][0], cur[blk.b + i][0]
+            if rn != cn and rn not in cur_names:
+                alias[rn] = cn
+    return alias
+
+
 class FunctionInfo:
     def __init__(self, module: "ModuleInfo", node: ast.FunctionDef, cls: "ClassInfo | None", kind: str = "function"):
         self.module, self.node, self.cls, self.kind = module, node, cls, kind
@@ -38,6 +118,11 @@ class FunctionInfo:
     @property
     def sha(self) -> str:
         return hashlib.sha256(self.source.encode()).hexdigest()[:16]
+
+    def local_bindings(self):
+        """[(name, signature)] of the function's locals in order of first binding. The signature abstracts from every
+        local NAME (kind of binding + skeleton of the bound expression), so it survives renaming."""
+        return local_bindings(self.node)
 
     def has_decorator(self, frag: str) -> bool:
         return any(frag in d for d in self.decorators)
